@@ -211,7 +211,7 @@ PROPS["C02"] = {
     "level": "translation_validation",
     "prepare": g_prepare,
     "jobs": [],
-    "designs": ["a1", "a2", "a3"],
+    "designs": ["a1", "a2", "a3", "a4"],
     "harness_tag": "c02",
     "quick": r"^VerifC02_", "thorough": r"^VerifC02T?_",
     "shards": {"a1_put": 4},
@@ -300,7 +300,7 @@ PROPS["C20"] = {
     },
 }
 
-ALL_DESIGNS = ["v1", "v2", "v3", "v4", "v5", "d1", "a1", "a2", "a3", "e1", "s1", "s2", "w1", "w2", "p1", "c1", "c2", "c3", "c4", "c5"]
+ALL_DESIGNS = ["v1", "v2", "v3", "v4", "v5", "d1", "a1", "a2", "a3", "a4", "e1", "s1", "s2", "w1", "w2", "p1", "c1", "c2", "c3", "c4", "c5"]
 
 PROPS["C01"] = {
     "level": "other",
